@@ -52,8 +52,13 @@ Definition kind_eqb (a b : kind) : bool :=
    blocked for that long in a phase that closing the client connection does not interrupt
    (tcp.Proxy inside net.DialTimeout to an upstream that does not answer, a slow PROXY-header
    write, a slow custom tcp.Handler); such a handler produces no answer, it just returns. *)
-Record leaf := { lkind : kind; litems : list dur; lstuck : list dur }.
-Definition mkleaf (k : kind) (ds : list dur) : leaf := {| lkind := k; litems := ds; lstuck := [] |}.
+(* [lhijacked] (HTTP kind only, ignored for the others): connections the handler has hijacked
+   (websocket / Upgrade sessions through HTTPProxy's raw proxy): http.Server stops tracking a
+   connection when it is hijacked, so Shutdown neither waits for it nor closes it. *)
+Record leaf := { lkind : kind; litems : list dur; lstuck : list dur; lhijacked : list dur }.
+Definition mkleaf (k : kind) (ds : list dur) : leaf :=
+  {| lkind := k; litems := ds; lstuck := []; lhijacked := [] |}.
+
 
 Inductive server :=
 | Single (l : leaf)
@@ -136,17 +141,22 @@ Definition item_fate (s : lstate) (d : dur) : fate :=
 Definition stuck_fate (s : lstate) (b : dur) : fate :=
   Cut (match cut_at s with Some c => dmin b c | None => b end).
 
+(* work that Shutdown does not touch at all (hijacked connections; servers it does not reach) *)
+Definition untouched (d : dur) : fate := match d with Fin n => Done n | Inf => Never end.
+
 Record lresult := {
   r_ret : dur;               (* when this server's Shutdown returns *)
   r_closed : option dur;     (* when its listener stopped accepting *)
   r_fates : list fate;
-  r_stuck : list fate        (* what the clients of the stuck handlers see *)
+  r_stuck : list fate;       (* what the clients of the stuck handlers see *)
+  r_hijacked : list fate     (* hijacked connections: left alone *)
 }.
 
 Definition run_leaf (gp : list step) (wait : N) (l : leaf) : lresult :=
   let s := exec wait (litems l) (lstuck l) (prog_of gp (lkind l)) in
   {| r_ret := now s; r_closed := closed_at s; r_fates := map (item_fate s) (litems l);
-     r_stuck := map (stuck_fate s) (lstuck l) |}.
+     r_stuck := map (stuck_fate s) (lstuck l);
+     r_hijacked := map untouched (lhijacked l) |}.
 
 Record sresult := {
   s_ret : dur;
@@ -223,8 +233,6 @@ Definition started_accepts (r : option sresult) (t : N) : bool :=
 Definition started_ret (rs : list (option sresult)) : dur :=
   dmax_list (map (fun r => match r with Some r => s_ret r | None => Fin 0 end) rs).
 
-(* a server that Shutdown does not reach: nothing is closed, nothing is cut *)
-Definition untouched (d : dur) : fate := match d with Fin n => Done n | Inf => Never end.
 
 (* ---- histories: listeners are also opened and closed while fabio runs (main.go:431-483, the
    tcp-dynamic watcher: proxy.ListenAndServeTCP for a new port, proxy.CloseProxy(port) for one
@@ -235,7 +243,10 @@ Definition untouched (d : dur) : fate := match d with Fin n => Done n | Inf => N
 Inductive hop :=
 | HStart (a : addr) (s : server)   (* serve(): registered under the configured address, accepting *)
 | HClose (a : addr)                (* CloseProxy(a) before Shutdown began *)
-| HCloseDuring (a : addr).         (* CloseProxy(a) while Shutdown is running: no effect *)
+| HCloseDuring (a : addr)          (* CloseProxy(a) while Shutdown is running: no effect *)
+| HStartDuring (a : addr) (s : server).
+    (* serve() AFTER Shutdown took its snapshot (main.go:431-483: the tcp-dynamic watcher loop is
+       never stopped): the server is registered in the fresh map, which nobody shuts down *)
 
 (* what happens first, later in the history, to the registry entry under [a]'s key:
    Some true = closed by CloseProxy, Some false = overwritten by another start, None = nothing *)
@@ -245,12 +256,29 @@ Fixpoint first_touch (kf : addr -> addr) (a : addr) (later : list hop) : option 
   | HStart a' _ :: r => if addr_eqb (kf a') (kf a) then Some false else first_touch kf a r
   | HClose a' :: r => if addr_eqb (kf a') (kf a) then Some true else first_touch kf a r
   | HCloseDuring _ :: r => first_touch kf a r
+  | HStartDuring _ _ :: r => first_touch kf a r
   end.
 
 Inductive sfate :=
 | SReached (r : sresult)   (* in the registry when Shutdown begins *)
 | SLost                    (* overwritten in the registry: never shut down *)
-| SClosed.                 (* closed by CloseProxy before Shutdown began: listener and connections gone *)
+| SClosed                  (* closed by CloseProxy before Shutdown began: listener and connections gone *)
+| SLate.                   (* started after the snapshot: accepts until the process exits *)
+
+(* the histories in which every start finds its address free in the registry (the tcp-dynamic
+   watcher only starts a port it could bind, i.e. after the previous listener on it was closed)
+   and nothing is started once Shutdown runs.  [reg] = the addresses registered so far *)
+Fixpoint well_formed_from (reg : list addr) (h : list hop) : Prop :=
+  match h with
+  | [] => True
+  | HStart a _ :: r => ~ In a reg /\ well_formed_from (a :: reg) r
+  | HClose a :: r => well_formed_from (filter (fun b => negb (addr_eqb b a)) reg) r
+  | HCloseDuring _ :: r => well_formed_from reg r
+  | HStartDuring _ _ :: _ => False
+  end.
+Definition well_formed (h : list hop) : Prop := well_formed_from [] h.
+Definition has_late_start (h : list hop) : bool :=
+  existsb (fun o => match o with HStartDuring _ _ => true | _ => false end) h.
 
 (* per started server, in start order *)
 Fixpoint run_history (gp : list step) (kf : addr -> addr) (wait : N) (h : list hop) : list sfate :=
@@ -262,16 +290,17 @@ Fixpoint run_history (gp : list step) (kf : addr -> addr) (wait : N) (h : list h
       | Some true => SClosed
       | Some false => SLost
       end :: run_history gp kf wait r
+  | HStartDuring _ _ :: r => SLate :: run_history gp kf wait r
   | _ :: r => run_history gp kf wait r
   end.
 
 Definition history_servers (h : list hop) : list server :=
-  flat_map (fun o => match o with HStart _ s => [s] | _ => [] end) h.
+  flat_map (fun o => match o with HStart _ s | HStartDuring _ s => [s] | _ => [] end) h.
 Definition history_addrs (h : list hop) : list addr :=
   flat_map (fun o => match o with HStart a _ => [a] | _ => [] end) h.
 
 Definition sfate_accepts (f : sfate) (t : N) : bool :=
-  match f with SReached r => server_accepts r t | SLost => true | SClosed => false end.
+  match f with SReached r => server_accepts r t | SLost => true | SClosed => false | SLate => true end.
 Definition history_ret (fs : list sfate) : dur :=
   dmax_list (map (fun f => match f with SReached r => s_ret r | _ => Fin 0 end) fs).
 
